@@ -12,6 +12,7 @@ SPEC = {
                     "the race detector is not used as an oracle (the unchanged server reports races in unrelated code)"],
     "campaigns": [
         {"name": "concurrent_clients", "run": "^TestConcurrentClients$", "quick": B(2, 10, 900, shrinktime="1s"), "thorough": B(20, 12, 3400, shrinktime="1s")},
+        {"name": "drop_during_flush", "run": "^TestDropDuringFlush$", "quick": B(1, 1, 900), "thorough": B(1, 1, 900)},
     ],
 }
 
